@@ -156,3 +156,24 @@ Definition canon_nested (o : sx) : sx :=
 
 Definition case_code_nested (n : ncase) (impl : sx) : Z :=
   if sx_eqb (canon_nested impl) (spec_nested n) then 0 else 3.
+
+(* ------------------------------------------------------------------------------------------- *)
+(* Selected call results: an(set_of([x, y, f(x, y)], <conjuncts binding the variables>)) -- the call is not a condition
+   but a selected expression; every candidate binding gives one row (the variables, then the plain result of the call,
+   falsy results included).  Outside the model: implementation vs Spec. *)
+Definition spec_selected (c : pcase) : sx :=
+  let kwargs := bound_kwargs (c_params c) (c_pos c) (c_kw c) in
+  let per := map (fun rho => let call := call_of (w_attr c) kwargs rho in
+                             (SL (map SZ (seen c call)),
+                              match row_of c rho with SL r => SL (r ++ [SZ (body_of c call)]) | o => o end))
+                 (cands (w_dom c) [] (dedup (c_pre c ++ vars_of kwargs))) in
+  SL [SZ 1; SZ 0; SL (sx_set (map fst per)); SL (sx_sort (map snd per))].
+
+Definition canon_selected (o : sx) : sx :=
+  match o with
+  | SL [k; e; SL calls; SL rows] => SL [k; e; SL (sx_set calls); SL (sx_sort rows)]
+  | _ => o
+  end.
+
+Definition case_code_selected (c : pcase) (impl : sx) : Z :=
+  if sx_eqb (canon_selected impl) (spec_selected c) then 0 else 3.
